@@ -86,8 +86,9 @@ inductive BodySrc
   | bytes (b : Str)
   /-- `SetBody(func() (io.ReadCloser, error))`: `r.Body == nil`, the caller's function makes a fresh reader -/
   | user (b : Str)
-  /-- `SetBody(struct/map…)`: marshalled on every attempt (`json` = what the marshaller yields) -/
-  | marshal (json : Str)
+  /-- `SetBody(struct/map…)`: marshalled on every attempt (`json` / `xml` = what the client's
+  marshallers yield; `handleMarshalBody` picks XML when the Content-Type in force is an XML type) -/
+  | marshal (json : Str) (xml : Str)
   /-- `SetBody(io.Reader)`: `unReplayableBody` -/
   | reader (b : Str) (consumed : Bool)
 deriving DecidableEq, Repr
@@ -109,11 +110,40 @@ structure ClientCfg where
   mGet : Str
   mHead : Str
   mOptions : Str
+  /-- `util.IsXMLType` -/
+  isXML : Str → Bool
+  /-- `Client.PathParams` -/
+  pathParams : List (Str × Str)
+  /-- `Client.BaseURL` (trailing slashes trimmed by `SetBaseURL`) -/
+  baseURL : Str
+  /-- `Client.scheme` followed by `://` ("" when unset) -/
+  schemePrefix : Str
+
+/-- A piece of `Request.RawURL`: literal text or a `{name}` placeholder. -/
+inductive Seg
+  | lit (b : Str)
+  | param (name : Str)
+deriving DecidableEq, Repr
+
+/-- How `RawURL` starts: with scheme and authority, with an authority only (`Client.scheme` is
+put in front), or not at all (`Client.BaseURL` is put in front). -/
+inductive UrlHead
+  | abs (origin : Str)
+  | noScheme (authority : Str)
+  | rel
+deriving DecidableEq, Repr
 
 /-- The per-request state carried from one attempt to the next. -/
 structure ReqState where
   method : Str
-  url : Str
+  /-- `RawURL` up to the path … -/
+  urlHead : UrlHead
+  /-- … its path, with placeholders … -/
+  path : List Seg
+  /-- … and the query string written in it (`parseRequestURL` keeps it in front of the parameters) -/
+  rawQuery : List (Str × Str)
+  /-- `Request.PathParams` -/
+  pathParams : List (Str × Str)
   cookies : List (Str × Str)
   headers : Multi
   form : Multi
@@ -153,6 +183,27 @@ structure Wire where
   body : WBody
 deriving DecidableEq, Repr
 
+/-- `strings.Replace(tempURL, "{"+p+"}", url.PathEscape(v), -1)` for the request's parameters, then
+the client's: the request wins; a placeholder nobody fills stays as it is.  (Decoded path: the
+escaping of the value is undone by the URL parser — C01.) -/
+def renderPath (req client : List (Str × Str)) (open_ close_ : Str) : List Seg → Str
+  | [] => []
+  | .lit b :: t => b ++ renderPath req client open_ close_ t
+  | .param n :: t =>
+    (match req.lookup n with
+     | some v => v
+     | none =>
+       match client.lookup n with
+       | some v => v
+       | none => open_ ++ n ++ close_) ++ renderPath req client open_ close_ t
+
+/-- parseRequestURL without the query: scheme://authority + decoded path. -/
+def buildURL (c : ClientCfg) (head : UrlHead) (path : Str) (slash : Str) : Str :=
+  match head with
+  | .abs o => o ++ path
+  | .noScheme a => c.schemePrefix ++ a ++ path
+  | .rel => c.baseURL ++ (if path.take slash.length = slash then path else slash ++ path)
+
 /-- `Client.isPayloadForbid` -/
 def payloadForbid (c : ClientCfg) (m : Str) : Bool :=
   (m == c.mGet && !c.allowGetPayload) || m == c.mHead || m == c.mOptions
@@ -183,6 +234,17 @@ def filePart (v : Variant) (c : ClientCfg) (f : FileUp) : FilePart :=
   let content := fileContent v f.src
   ⟨f.param, f.name, if f.ctype = [] then c.detect (sniffBuf content) else f.ctype, content⟩
 
+/-- `writeMultipartFormFile` gives up on an upload whose reader the previous attempt closed (the
+rewind fails, `writeMultiPart` ignores the error): the part is missing altogether.  Unreachable in
+the repaired code — `Do` refuses such a request up front, and the loop never retries it (C10-8). -/
+def FileUp.closed (f : FileUp) : Bool :=
+  match f.src with
+  | .closer _ true => true
+  | _ => false
+
+def fileParts (v : Variant) (c : ClientCfg) (files : List FileUp) : List FilePart :=
+  (files.filter fun f => !f.closed).map (filePart v c)
+
 /-- The fields `writeMultiPart` emits: the ordered pairs, then the form map (since /repo
 00dbc9a; before, the ordered pairs were dropped when the map was non-empty). -/
 def multipartFields (st : ReqState) : List (Str × Str) :=
@@ -198,7 +260,7 @@ def parseBody (v : Variant) (c : ClientCfg) (ra : Nat) (st : ReqState) : ReqStat
     if st.multipart then
       ({ st with headers := put st.headers c.ctKey [c.boundaryCT],
                  files := st.files.map fun f => { f with src := f.src.consume } },
-       .multipart (multipartFields st) (st.files.map (filePart v c)))
+       .multipart (multipartFields st) (fileParts v c st.files))
     else if !st.ordered.isEmpty then
       ({ st with headers := put st.headers c.ctKey [c.formCT] },
        if nonEmpty form then .orderedForm st.ordered form else .ordered st.ordered)
@@ -208,9 +270,9 @@ def parseBody (v : Variant) (c : ClientCfg) (ra : Nat) (st : ReqState) : ReqStat
       | .none => (st, .none)
       | .user b => (st, .raw b)
       | .reader b consumed => ({ st with body := .reader b true }, .raw (if consumed then [] else b))
-      | .marshal j =>
+      | .marshal j x =>
         if first st.headers c.ctKey = [] then ({ st with headers := put st.headers c.ctKey [c.jsonCT] }, .raw j)
-        else (st, .raw j)
+        else (st, .raw (if c.isXML (first st.headers c.ctKey) then x else j))
       | .bytes b =>
         if first st.headers c.ctKey = [] then ({ st with headers := put st.headers c.ctKey [c.detect b] }, .raw b)
         else (st, .raw b)
@@ -221,12 +283,22 @@ def parseCookie (v : Variant) (c : ClientCfg) (ra : Nat) (ck : List (Str × Str)
   let go := if v.cookieOnce then (!c.cookies.isEmpty && ra == 0) else (!c.cookies.isEmpty || ra == 0)
   if go then ck ++ c.cookies else ck
 
+def lbrace : Str := [123]
+def rbrace : Str := [125]
+def slash : Str := [47]
+
+/-- The URL (without query) `parseRequestURL` computes: a function of `RawURL`, the path parameters
+of both levels, `Client.scheme` and `Client.BaseURL` — nothing an attempt changes. -/
+def urlOf (c : ClientCfg) (st : ReqState) : Str :=
+  buildURL c st.urlHead (renderPath st.pathParams c.pathParams lbrace rbrace st.path) slash
+
 /-- The built-in request middleware chain of one attempt and the request it produces. -/
 def mw (v : Variant) (c : ClientCfg) (ra : Nat) (st : ReqState) : ReqState × Wire :=
   let st1 := { st with headers := mergeHeaders c.headers st.headers,
                         cookies := parseCookie v c ra st.cookies }
   let b := parseBody v c ra st1
-  (b.1, ⟨st.method, st.url, mergeQuery c.query st.query, b.1.headers, b.1.cookies, b.2⟩)
+  (b.1, ⟨st.method, urlOf c st, st.rawQuery.map (fun p => (p.1, [p.2])) ++ mergeQuery c.query st.query,
+    b.1.headers, b.1.cookies, b.2⟩)
 
 /-- The request attempt number `k` puts on the wire when nothing but the middleware touches
 the state between attempts. -/
@@ -236,6 +308,31 @@ def stateAt (v : Variant) (c : ClientCfg) (st : ReqState) : Nat → ReqState
 
 def build (v : Variant) (c : ClientCfg) (st : ReqState) (k : Nat) : Wire :=
   (mw v c k (stateAt v c st k)).2
+
+/-! ### the cookie jar
+
+`http.Client.Jar` (req installs a `cookiejar.Jar` by default) is NOT part of the request
+`Request.do` builds: `http.Client.send` adds the jar's cookies for the URL to the outgoing
+`http.Request` after `Client.roundTrip` has assembled it from `r.Headers` / `r.Cookies`, and
+stores the `Set-Cookie`s of the response that comes back.  So what goes on the wire in attempt
+`k` is the request of attempt `k` (`build`, identical for all `k`) PLUS the cookies the origin
+itself has set in the responses to attempts `0 … k-1` — the one legitimate difference between
+attempts that no hook made ("unless a hook deliberately changed it" is about the caller's side;
+RFC 6265 obliges the user agent to send what the server stored).  One origin, path `/`. -/
+
+/-- One `Set-Cookie`: an empty value stands for an expired cookie (`Max-Age=0`), which deletes. -/
+def jarSet (jar : List (Str × Str)) (c : Str × Str) : List (Str × Str) :=
+  if c.2.isEmpty then jar.filter fun e => !(e.1 == c.1)
+  else if jar.any (fun e => e.1 == c.1) then jar.map fun e => if e.1 == c.1 then c else e
+  else jar ++ [c]
+
+/-- The jar before attempt number `k` of a call, given what the response of each earlier attempt
+set (`[]` for an attempt without a response). -/
+def jarBefore (sets : List (List (Str × Str))) (jar0 : List (Str × Str)) (k : Nat) : List (Str × Str) :=
+  (sets.take k).foldl (fun j cs => cs.foldl jarSet j) jar0
+
+/-- What `http.Client.send` puts on the wire for a request built by the middleware. -/
+def withJar (w : Wire) (jar : List (Str × Str)) : Wire := { w with cookies := w.cookies ++ jar }
 
 /-- `Request.Do`'s up-front refusal looks at `unReplayableBody`; with the C10-6 repair also at
 upload readers that cannot be rewound. -/
